@@ -74,7 +74,7 @@ def map_after_compute_cov(c, m=2, n=2):
     c.eq('gradient_of_posterior_logd_vanishes_at_the_returned_point', g, np.zeros(n) if not c.sym else np.array([core.SReal(z3.RealVal(0))] * n, dtype=object), tol=1e-4)
 
 
-def direct_sampling(c, m, n, noise_form, prior_form):
+def direct_sampling(c, m, n, noise_form, prior_form, public=False):
     BP, n = _problem(c, m, n, noise_form, prior_form)
     post = BP.posterior
     e = [c.vec(f'e{s}_', n) for s in range(2)]
@@ -82,7 +82,10 @@ def direct_sampling(c, m, n, noise_form, prior_form):
         if c.sym: shims.PRESET['normal'].append(e[s])
         else: c._numq['normal'].append(e[s]); c._patch_random()
     S0 = (frame.snapshot(BP.likelihood.distribution), frame.snapshot(BP.prior))
-    S = BP._sampleMapCholesky(2)
+    if public:
+        import io, contextlib
+        with contextlib.redirect_stdout(io.StringIO()): S = BP.sample_posterior(2)          # the public entry point must select the direct route and hand its draws back
+    else: S = BP._sampleMapCholesky(2)
     S1 = (frame.snapshot(BP.likelihood.distribution), frame.snapshot(BP.prior))
     c.holds('sampling_leaves_noise_model_and_prior_unchanged', frame.same(S0, S1), note='; '.join(frame.diff(S0, S1)))
     xmap = np.asarray(BP.MAP(disp=False))
@@ -170,6 +173,8 @@ def jobs(tier):
     for (m, n, nf, pf) in [(2, 2, 'scalar', 'scalar'), (2, 2, 'vector', 'vector'), (1, 2, 'scalar', 'vector')] + [(2, 2, 'dense', 'vector')] + ([] if q else [(2, 2, 'dense', 'dense')]):
         J.append(Job(f'sample_posterior:direct:m={m}:n={n}:noise={nf}:prior={pf}', lambda c, a=(m, n, nf, pf): direct_sampling(c, *a), 'B' if 'dense' in (nf, pf) else 'Pbox',   # B B^T H = I with a dense covariance exceeds the provers' budget: bounded stand-in
                      [f'{PR}:BayesianProblem._sampleMapCholesky'] + FL, rtol=1e-4, timeout=600, allow_exc=True))
+    J.append(Job('sample_posterior:public_entry_point:m=2:n=2:noise=vector:prior=vector', lambda c: direct_sampling(c, 2, 2, 'vector', 'vector', True), 'Pbox',
+                 [f'{PR}:BayesianProblem.sample_posterior', f'{PR}:BayesianProblem._sampleMapCholesky'] + FL, rtol=1e-4, timeout=600, allow_exc=True))
     J.append(Job('MAP:closed_form:after_compute_cov:sqrtprec_triangular_and_vector_prec', map_after_compute_cov, 'Pbox', FL + ['cuqi.distribution._gaussian:Gaussian.compute_cov'], allow_exc=True, rtol=1e-4, timeout=600))
     for which in ('MAP', 'ML'):
         for pk in ('Gaussian', 'Cauchy'):
